@@ -807,9 +807,300 @@ def check_C20(ctx):
         ctx.coverage["read_events_observed"] += r["summaries"].get("adv", {}).get("read_events", 0)
 
 
+
+# ----------------------------------------------------------------------------------------------
+# C16 - C19
+
+def build_cli(sm=False):
+    tdir = os.path.join(TARGET, "repo-cli-sm" if sm else "repo-cli")
+    cmd = ["cargo", "build", "--offline", "-p", "logos-cli"] + (["--features", "state_machine_codegen"] if sm else [])
+    e = env_base()
+    e["CARGO_TARGET_DIR"] = tdir
+    rc, out = sh(cmd, cwd=REPO, timeout=1800, env=e)
+    if rc != 0:
+        raise Inconclusive("logos-cli build failed:\n" + out[-2000:])
+    return os.path.join(tdir, "debug", "logos-cli")
+
+
+def check_C16(ctx):
+    ctx.rules += ["vtool det: N definitions with many states/edges/LUTs (keyword lexers, Unicode classes, ambiguity-rejected definitions, loops) are each generated in T threads per process (fresh hash-map keys per thread, "
+                  "alternating traversal order) and in P separate processes; FNV hashes of the emitted code string and of the captured graph must be identical across all P*T runs, for both code generators. "
+                  "logos-cli (real binary, both generators): the same input generated twice into different files gives identical bytes and --check accepts the other run's output. "
+                  "Non-trivial: definitions with at least 8 graph states."]
+    n = 40 if ctx.tier == "quick" else 400
+    procs = 6 if ctx.tier == "quick" else 16
+    threads = 4 if ctx.tier == "quick" else 8
+    contexts = 0
+    for sm in (False, True):
+        build_harness(sm)
+        outs = []
+        def one(p):
+            return json.loads(vtool(["det", "--seed", str(ctx.seed), "--count", str(n), "--threads", str(threads)], sm=sm))
+        with ThreadPoolExecutor(max_workers=procs) as ex:
+            outs = list(ex.map(one, range(procs)))
+        for o in outs:
+            for v in o["violations"]:
+                ctx.add_violation(v)
+        ref = outs[0]["hashes"]
+        for pi, o in enumerate(outs[1:], 1):
+            if o["hashes"] != ref:
+                k = next(i for i in range(len(ref)) if o["hashes"][i] != ref[i])
+                ctx.add_violation({"property": "C16", "level": "L", "rule": "processes-disagree", "codegen": "state_machine" if sm else "tailcall",
+                                   "detail": f"definition #{k}: process 0 hashes {ref[k]}, process {pi} hashes {o['hashes'][k]} (seed {ctx.seed})",
+                                   "definition_index": k})
+        contexts += procs * threads
+        ctx.coverage["evaluations"] += n * procs * threads
+        if not sm:
+            ctx.coverage["distinct_nontrivial"] += outs[0]["definitions_with_8_or_more_states"]
+            ctx.coverage["samples"].append({"definition": outs[0]["sample"], "hashes": ref[0]})
+        ctx.add_stage("det:" + ("sm" if sm else "tc"), {"definitions": n, "processes": procs, "threads": threads, "definitions_with_8_or_more_states": outs[0]["definitions_with_8_or_more_states"]})
+    ctx.coverage["hash_seed_contexts"] = contexts
+    # CLI
+    cdir = os.path.join(WORK, "cli16")
+    shutil.rmtree(cdir, ignore_errors=True)
+    vtool(["cli-gen", "--seed", str(ctx.seed), "--count", "12" if ctx.tier == "quick" else "60", "--dir", cdir])
+    for sm in (False, True):
+        exe = build_cli(sm)
+        k = 0
+        while os.path.exists(os.path.join(cdir, f"in_{k}.rs")):
+            inp = os.path.join(cdir, f"in_{k}.rs")
+            a, b = os.path.join(cdir, f"a_{k}_{int(sm)}.rs"), os.path.join(cdir, f"b_{k}_{int(sm)}.rs")
+            r1, o1 = sh([exe, inp, "--output", a], timeout=120)
+            r2, o2 = sh([exe, inp, "--output", b], timeout=120)
+            ctx.coverage["evaluations"] += 2
+            if r1 != 0 or r2 != 0:
+                ctx.inconclusive.append(f"logos-cli failed on generated input {k}: {o1[-200:]}")
+            elif open(a, "rb").read() != open(b, "rb").read():
+                ctx.add_violation({"property": "C16", "level": "R", "rule": "cli-runs-differ", "detail": f"two runs of logos-cli on {inp} produced different bytes", "input": open(inp).read()})
+            else:
+                r3, o3 = sh([exe, inp, "--output", b, "--check"], timeout=120)
+                if r3 != 0:
+                    ctx.add_violation({"property": "C16", "level": "R", "rule": "cli-check-rejects-own-output", "detail": o3[-300:], "input": open(inp).read()})
+            k += 1
+        ctx.add_stage("cli:" + ("sm" if sm else "tc"), {"inputs": k})
+
+
+def cli_history(ctx, exe, cdir, k, rng, steps):
+    """Random write/check/format/corrupt/CRLF/delete history against a file model."""
+    inp = os.path.join(cdir, f"in_{k}.rs")
+    outp = os.path.join(cdir, f"hist_{k}.rs")
+    if os.path.exists(outp):
+        os.remove(outp)
+    # expected contents (from the CLI itself, validated separately by the oracle)
+    plain = os.path.join(cdir, f"out_{k}.rs")
+    fmt = os.path.join(cdir, f"fmt_{k}.rs")
+    want_plain = open(plain).read() if os.path.exists(plain) else None
+    want_fmt = open(fmt).read() if os.path.exists(fmt) else None
+    if want_plain is None:
+        return 0
+    norm = lambda s: s.splitlines()
+    hist = []
+    n = 0
+    for _ in range(steps):
+        op = rng.choice(["write", "check", "check", "write_fmt", "check_fmt", "corrupt", "crlf", "delete", "append_newlines"])
+        if op in ("write_fmt", "check_fmt") and want_fmt is None:
+            continue
+        hist.append(op)
+        n += 1
+        before = open(outp, "rb").read() if os.path.exists(outp) else None
+        mt = os.stat(outp).st_mtime_ns if before is not None else None
+        if op == "write":
+            rc, o = sh([exe, inp, "--output", outp], timeout=120)
+            now = open(outp).read() if os.path.exists(outp) else None
+            if rc != 0 or now is None or norm(now) != norm(want_plain):
+                ctx.add_violation({"property": "C17", "level": "R", "rule": "write-does-not-leave-output", "detail": f"history {hist}: rc={rc}, file does not hold the generated output", "input": open(inp).read()})
+                return n
+        elif op == "write_fmt":
+            rc, o = sh([exe, inp, "--output", outp, "--format"], timeout=120)
+            now = open(outp).read() if os.path.exists(outp) else None
+            if rc != 0 or now is None or norm(now) != norm(want_fmt):
+                ctx.add_violation({"property": "C17", "level": "R", "rule": "write-does-not-leave-output", "detail": f"history {hist}: rc={rc}, file does not hold the formatted output", "input": open(inp).read()})
+                return n
+        elif op in ("check", "check_fmt"):
+            want = want_plain if op == "check" else want_fmt
+            rc, o = sh([exe, inp, "--output", outp, "--check"] + (["--format"] if op == "check_fmt" else []), timeout=120)
+            expect_ok = before is not None and norm(before.decode("utf-8", "replace")) == norm(want)
+            if (rc == 0) != expect_ok:
+                ctx.add_violation({"property": "C17", "level": "R", "rule": "check-status-wrong", "detail": f"history {hist}: --check exit status {rc}, file {'equals' if expect_ok else 'differs from'} the output (modulo line endings)", "input": open(inp).read()})
+                return n
+            after = open(outp, "rb").read() if os.path.exists(outp) else None
+            mt2 = os.stat(outp).st_mtime_ns if after is not None else None
+            if after != before or mt2 != mt:
+                ctx.add_violation({"property": "C17", "level": "R", "rule": "check-modified-file", "detail": f"history {hist}: --check changed the file (content or mtime)", "input": open(inp).read()})
+                return n
+        elif op == "corrupt" and before is not None and len(before) > 10:
+            pos = rng.randrange(len(before))
+            open(outp, "wb").write(before[:pos] + b"X" + before[pos + 1:])
+        elif op == "crlf" and before is not None:
+            open(outp, "wb").write(before.replace(b"\r\n", b"\n").replace(b"\n", b"\r\n"))
+        elif op == "append_newlines" and before is not None:
+            open(outp, "wb").write(before + b"\n\n")
+        elif op == "delete" and before is not None:
+            os.remove(outp)
+    return n
+
+
+def check_C17(ctx):
+    import random
+    ctx.rules += ["F13 enum sources (derives in any position incl. path-qualified and several derive attributes, cfg_attr, repr, doc comments, attributes on variants and fields, lifetimes) are run through the real logos-cli binary built from /repo; "
+                  "an independent syn-based oracle checks: output parses as a Rust file, first item == input enum minus logos/token/regex attributes and Logos derive paths (token comparison after canonical re-printing of derive lists), "
+                  "remaining items == generate(input); with and without --format. Histories over {write, check, write --format, check --format, corrupt, CRLF, append newlines, delete} against a file model "
+                  "(check status iff equal modulo line endings; check never changes content or mtime). Non-trivial: inputs whose derive list has a path-qualified entry or more than one derive attribute."]
+    n = 40 if ctx.tier == "quick" else 400
+    cdir = os.path.join(WORK, "cli17")
+    shutil.rmtree(cdir, ignore_errors=True)
+    meta = json.loads(vtool(["cli-gen", "--seed", str(ctx.seed), "--count", str(n), "--dir", cdir]))
+    exe = build_cli(False)
+    nontrivial = 0
+
+    def gen(k):
+        inp = os.path.join(cdir, f"in_{k}.rs")
+        r1 = sh([exe, inp, "--output", os.path.join(cdir, f"out_{k}.rs")], timeout=120)
+        r2 = sh([exe, inp, "--output", os.path.join(cdir, f"fmt_{k}.rs"), "--format"], timeout=120)
+        return k, r1, r2
+    with ThreadPoolExecutor(max_workers=NCPU) as ex:
+        for k, (rc1, o1), (rc2, o2) in ex.map(gen, range(n)):
+            src = open(os.path.join(cdir, f"in_{k}.rs")).read()
+            if "::" in src.split("enum")[0] or src.count("#[derive(") > 1:
+                nontrivial += 1
+            if rc1 != 0:
+                ctx.add_violation({"property": "C17", "level": "R", "rule": "cli-failed", "detail": f"logos-cli failed on a valid enum: {o1[-300:]}", "input": src})
+            if rc2 != 0:
+                # rustfmt refuses invalid Rust: a formatting failure means the plain output is not valid Rust
+                ctx.add_violation({"property": "C17", "level": "R", "rule": "cli-format-failed", "detail": f"logos-cli --format failed (output is not valid Rust?): {o2[-300:]}", "input": src})
+    # --format output must be rustfmt(plain output)
+    for k in range(n):
+        po, fo = os.path.join(cdir, f"out_{k}.rs"), os.path.join(cdir, f"fmt_{k}.rs")
+        if os.path.exists(po) and os.path.exists(fo):
+            pr = subprocess.run(["rustfmt"], input=open(po).read(), capture_output=True, text=True)
+            if pr.returncode != 0:
+                ctx.add_violation({"property": "C17", "level": "R", "rule": "output-not-formattable", "detail": f"rustfmt rejects the plain output of in_{k}.rs: {pr.stderr[-300:]}", "input": open(os.path.join(cdir, f"in_{k}.rs")).read()})
+            elif pr.stdout != open(fo).read():
+                ctx.add_violation({"property": "C17", "level": "R", "rule": "format-output-differs", "detail": f"--format output of in_{k}.rs is not rustfmt(plain output)", "input": open(os.path.join(cdir, f"in_{k}.rs")).read()})
+            ctx.coverage["evaluations"] += 1
+    res = json.loads(vtool(["cli-oracle", "--dir", cdir]))
+    for p in res["problems"]:
+        if p["problem"].startswith("HARNESS"):
+            ctx.inconclusive.append(p["problem"])
+            continue
+        ctx.add_violation({"property": "C17", "level": "R", "rule": "cli-output-differs-from-oracle", "detail": f"in_{p['file']}.rs ({p['kind']}): {p['problem'][:600]}", "input": p["input"]})
+    ctx.coverage["evaluations"] += res["checked"]
+    ctx.coverage["distinct_nontrivial"] += nontrivial
+    ctx.coverage["samples"] += [{"input": s} for s in meta["samples"][:2]]
+    rng = random.Random(ctx.seed)
+    steps = 0
+    hist_n = 12 if ctx.tier == "quick" else 120
+    for k in range(min(hist_n, n)):
+        steps += cli_history(ctx, exe, cdir, k, rng, 14)
+    ctx.coverage["evaluations"] += steps
+    ctx.add_stage("cli", {"inputs": n, "outputs_checked_by_oracle": res["checked"], "history_steps": steps, "histories": min(hist_n, n)})
+    ctx.assumptions += ["syn 2 parses Rust as rustc does for these enum items", "the model's expected file contents are the CLI's own outputs, which the oracle validates separately"]
+
+
+def check_C18(ctx):
+    ctx.rules += ["vtool perm: base definitions decorated with as many named arguments as possible (priority, callback, ignore(case), allow_greedy; positional or named callback) and a combined #[logos(...)] attribute "
+                  "(utf8, error / error(...), extras, crate, subpatterns, skips with arguments); all permutations of each pattern's named arguments (<= 24) and up to 24 dependency-respecting orders of the #[logos] items "
+                  "(skips keep their relative order, subpatterns stay before use) go through generate(); acceptance must agree and the generated code (or the sorted diagnostics) must be identical to the canonical order's. "
+                  "Non-trivial: accepted base definitions for which at least one alternative order was compared."]
+    n = 600 if ctx.tier == "quick" else 12000
+    r = json.loads(vtool(["perm", "--seed", str(ctx.seed), "--count", str(n), "--threads", str(NCPU)]))
+    for v in r["violations"]:
+        ctx.add_violation(v)
+    ctx.coverage["evaluations"] += r["evaluations"]
+    ctx.coverage["distinct_nontrivial"] += r["nontrivial"]
+    ctx.coverage["samples"] += r["samples"][:4]
+    ctx.add_stage("perm", {k: r[k] for k in ("definitions", "evaluations", "orders_compared", "nontrivial")})
+
+
+def check_C19(ctx):
+    ctx.rules += ["(L) catch_unwind around generate() for: must-reject category specimens (empty-matching, greedy unbounded dots at any nesting depth, start-anchored look-behind, unsupported syntax, undefined subpatterns, "
+                  "non-UTF-8 in str mode, named/empty/multi-field variants), malformed and duplicated attribute arguments, and token-level mutations (delete/duplicate/swap/re-nest/insert/duplicate-argument/truncate) of valid attributes; "
+                  "a panic or an accepted must-reject specimen is a violation. (R) a sample of the same inputs, one enum per module, compiled by the STABLE toolchain with --message-format=json: no 'proc-macro derive panicked' / ICE; "
+                  "library-rejected clean inputs must surface their compile_error texts; library-accepted clean inputs must compile. Every accepted corpus definition must compile in all 4 configurations. "
+                  "Non-trivial: inputs that were rejected with diagnostics."]
+    n = 8000 if ctx.tier == "quick" else 200000
+    r = json.loads(vtool(["fuzz", "--seed", str(ctx.seed), "--count", str(n), "--threads", str(NCPU)]))
+    for v in r["violations"]:
+        ctx.add_violation(v)
+    ctx.coverage["evaluations"] += r["inputs"]
+    ctx.coverage["distinct_nontrivial"] += r["nontrivial"]
+    ctx.coverage["samples"] += r["samples"][:5]
+    ctx.add_stage("fuzz", {"inputs": r["inputs"], "stats": r["stats"]})
+    # real rustc, stable toolchain
+    m = 100 if ctx.tier == "quick" else 1000
+    rdir = os.path.join(WORK, "rsample")
+    shutil.rmtree(rdir, ignore_errors=True)
+    vtool(["rsample-gen", "--seed", str(ctx.seed), "--count", str(m), "--dir", rdir])
+    e = env_base()
+    e["CARGO_TARGET_DIR"] = os.path.join(TARGET, "rsample")
+    try:
+        p = subprocess.run(["cargo", "+stable", "build", "--offline", "--message-format=json"], cwd=rdir, env=e, timeout=3000, stdout=subprocess.PIPE, stderr=subprocess.PIPE, text=True, errors="replace")
+    except subprocess.TimeoutExpired:
+        raise Inconclusive("rsample build watchdog fired (derive termination is bounded by wall clock only)")
+    idx = json.load(open(os.path.join(rdir, "index.json")))["modules"]
+    diags = {}
+    saw_compiler = False
+    for line in p.stdout.splitlines():
+        try:
+            msg = json.loads(line)
+        except ValueError:
+            continue
+        if msg.get("reason") == "compiler-artifact" and msg.get("target", {}).get("name") == "logos":
+            saw_compiler = True
+        if msg.get("reason") != "compiler-message":
+            continue
+        d = msg["message"]
+        if not d["level"].startswith("error"):
+            continue
+        f = d["spans"][0]["file_name"] if d["spans"] else "?"
+        diags.setdefault(f, []).append(d["message"])
+    if not saw_compiler and not diags:
+        ctx.inconclusive.append("rsample: rustc produced no usable output: " + p.stderr[-400:])
+    panics = rejected_seen = accepted_ok = 0
+    for mod in idx:
+        ds = diags.get(f"src/m{mod['module']}.rs", [])
+        bad = [d for d in ds if "panicked" in d or "internal compiler error" in d]
+        if bad:
+            panics += 1
+            ctx.add_violation({"property": "C19", "level": "R", "rule": "derive-panicked-under-rustc", "detail": bad[0][:400], "definition": {"source": mod["source"]}})
+            continue
+        if not mod["clean"]:
+            continue
+        if mod["library_outcome"] == "accepted":
+            if ds:
+                ctx.add_violation({"property": "C19", "level": "R", "rule": "accepted-definition-does-not-compile", "detail": "; ".join(ds[:3])[:500], "definition": {"source": mod["source"]}})
+            else:
+                accepted_ok += 1
+        elif mod["library_outcome"] == "rejected":
+            missing = [m for m in mod["library_messages"] if not any(m in d for d in ds)]
+            if missing:
+                ctx.add_violation({"property": "C19", "level": "R", "rule": "diagnostic-lost", "detail": f"compile_error text {missing[0][:200]!r} did not reach rustc's diagnostics: {ds[:2]}", "definition": {"source": mod["source"]}})
+            else:
+                rejected_seen += 1
+    for f in diags.get("?", []):
+        if "panicked" in f:
+            ctx.add_violation({"property": "C19", "level": "R", "rule": "derive-panicked-under-rustc", "detail": f[:400]})
+    ctx.coverage["evaluations"] += len(idx)
+    ctx.coverage["distinct_nontrivial"] += rejected_seen
+    ctx.add_stage("rsample(stable rustc)", {"modules": len(idx), "clean_rejected_with_diagnostics_seen": rejected_seen, "clean_accepted_compiled": accepted_ok, "panics": panics,
+                                            "toolchain": sh(["rustc", "+stable", "--version"])[1].strip()})
+    # every accepted corpus definition must compile in all four configurations
+    tp = tier_params(ctx.tier)
+    cdir, meta = gen_corpus("mixed", ctx.seed, ctx.tier, tp["mixed"], tp["max_states"])
+    for cfg in CONFIGS:
+        tag, out = build_corpus(cdir, cfg)
+        if tag is None:
+            errs = [l for l in out.splitlines() if l.startswith("error")][:5]
+            ctx.add_violation({"property": "C19", "level": "R", "rule": "accepted-definition-does-not-compile", "config": cfg, "detail": f"corpus of {meta['definitions']} accepted definitions failed to compile in config {cfg}: {errs}", "output_tail": out[-3000:]})
+    ctx.coverage["evaluations"] += meta["definitions"] * 4
+    ctx.add_stage("corpus-compiles", {"definitions": meta["definitions"], "configs": list(CONFIGS)})
+    ctx.assumptions += ["'terminates' is bounded by a wall-clock watchdog (inconclusive when it fires)"]
+
+
 CHECKS = {
     "C01": check_C01, "C02": check_C02, "C03": check_C03, "C04": check_C04, "C07": check_C07, "C08": check_C08,
     "C09": check_C09, "C10": check_C10, "C11": check_C11, "C12": check_C12,
+    "C16": check_C16, "C17": check_C17, "C18": check_C18, "C19": check_C19,
     "C05": check_C05, "C06": check_C06, "C13": check_C13, "C14": check_C14, "C15": check_C15, "C20": check_C20,
 }
 
